@@ -10,6 +10,7 @@ pub mod c08;
 pub mod c10;
 pub mod c11;
 pub mod c12;
+pub mod c13;
 pub mod c14;
 pub mod c15;
 pub mod c16;
@@ -32,6 +33,7 @@ pub fn dispatch(pos: &[String], tier: Tier, seed: u64, replay: Option<String>) -
         "C10" => c10::run(tier, seed, replay),
         "C11" => c11::run(tier, seed, replay),
         "C12" => c12::run(tier, seed, replay),
+        "C13" => c13::run(tier, seed, replay),
         "C14" => c14::run(tier, seed, replay),
         "C15" => c15::run(tier, seed, replay),
         "C16" => c16::run(tier, seed, replay),
